@@ -2196,39 +2196,75 @@ class Engine(object):
         raise Unsupported("membership in %s" % type(container).__name__)
 
     # -- comprehensions -------------------------------------------------------------------------
-    def comp_items(self, node, frame, st):
+    def comp_items(self, node, frame, st, guarded_ok=False):
+        """
+        elements of a comprehension.  With guarded_ok (list comprehensions and generator
+        expressions) an element whose `if` clauses are symbolic is kept as a conditionally present
+        element (the same representation `for ...: if ...: out.append(...)` produces), so a
+        comprehension over a constant table stays on one path; otherwise the clause is a fork.
+        """
         out = []
         sub = Frame(None, {}, frame)
         # keep function identity for module lookups
         sub.func = frame.func
+        active = []
+
+        def leaf():
+            if isinstance(node, ast.DictComp):
+                v = (self.eval(node.key, sub, st), self.eval(node.value, sub, st))
+            else:
+                v = self.eval(node.elt, sub, st)
+            out.append((_and(active) if active else z3.BoolVal(True), v))
+
+        def conds(gen, gi, k):
+            if k == len(gen.ifs):
+                return rec(gi + 1)
+            c = self.cond_z(self.eval(gen.ifs[k], sub, st), st)
+            if not isinstance(c, bool):
+                c = z3.simplify(c)
+                if z3.is_true(c):
+                    c = True
+                elif z3.is_false(c):
+                    c = False
+            if c is True:
+                return conds(gen, gi, k + 1)
+            if c is False:
+                return None
+            if guarded_ok:
+                n = len(out)
+                active.append(c)
+                try:
+                    self.guarded(c, lambda: conds(gen, gi, k + 1), st)
+                    return None
+                except NeedFork:
+                    del out[n:]
+                    if st.guards:
+                        raise
+                finally:
+                    active.pop()
+            if st.decide(c, "comprehension-if"):
+                return conds(gen, gi, k + 1)
+            return None
 
         def rec(gi):
             if gi == len(node.generators):
-                if isinstance(node, ast.DictComp):
-                    out.append((self.eval(node.key, sub, st), self.eval(node.value, sub, st)))
-                else:
-                    out.append(self.eval(node.elt, sub, st))
-                return
+                return leaf()
             gen = node.generators[gi]
             it = self.eval(gen.iter, sub, st)
             for x in self.iterate(it, st):
                 self.assign(gen.target, x, sub, st)
-                ok = True
-                for cond in gen.ifs:
-                    if not self.truth(self.eval(cond, sub, st), st, "comprehension-if"):
-                        ok = False
-                        break
-                if ok:
-                    rec(gi + 1)
+                conds(gen, gi, 0)
 
         rec(0)
-        return out
+        if all(z3.is_true(g) for g, _ in out):
+            return [v for _, v in out]
+        return GList([(z3.simplify(g), v) for g, v in out])
 
     def ex_ListComp(self, node, frame, st):
-        return self.comp_items(node, frame, st)
+        return self.comp_items(node, frame, st, guarded_ok=True)
 
     def ex_GeneratorExp(self, node, frame, st):
-        return self.comp_items(node, frame, st)  # evaluated eagerly (side-effect-free bodies)
+        return self.comp_items(node, frame, st, guarded_ok=True)  # evaluated eagerly (side-effect-free bodies)
 
     def ex_SetComp(self, node, frame, st):
         items = self.comp_items(node, frame, st)
